@@ -150,6 +150,15 @@ func (e treeEngine) Run(ctx *RunCtx) {
 			doc.LSPVer++
 			d.Notify("textDocument/didChange", J{"textDocument": J{"uri": doc.URI, "version": doc.LSPVer}, "contentChanges": []J{{"text": doc.Text}}})
 		}
+		if c.Pct("unjudged-request-while-work-is-pending", 30) {
+			// the same kind of request while background work may still be in
+			// flight; its answer is not judged, but whatever it caches must not
+			// show in the answers observed at quiescence
+			l, ch, _ := w.OccAt(c, doc)
+			m := map[string]string{"c20": "textDocument/hover", "c16": "textDocument/completion", "c18": "textDocument/completion", "c09": "textDocument/references"}[e.prop]
+			d.Call(m, J{"textDocument": docID(doc.URI), "position": pos(l, ch), "context": J{"includeDeclaration": true}})
+			ctx.Stats.Inc("probe:unjudged-request-before-quiescence")
+		}
 		if !d.Quiesce() {
 			fail("liveness", "no-quiescence", d.Deadlock, nil)
 			return false
